@@ -44,6 +44,27 @@ var (
 	vfMqResTopics  = []string{"a", "a/b", "b", "b/b", "a/b/c"}
 )
 
+// vfMqResIDFamilies: the client ids of a script (the first nIDs of one family). Client ids are
+// arbitrary UTF-8 strings; the families put ids side by side that are plain names, that look
+// like paths (what multi-tenant naming produces; the session store key is a prefix + the id) and
+// that are related to each other: one id is the last / the first path element of another one,
+// or differs only by a leading or trailing '/'. Whatever happens to one id must leave the others alone.
+var vfMqResIDFamilies = [][]string{
+	{"d0", "d1", "d2"},
+	{"gw", "plant-7/gw", "plant-7"},
+	{"a/b", "b", "a"},
+	{"x/", "x", "/x"},
+	{"t/u/v", "u/v", "v"},
+	{"site-1/dev", "site-2/dev", "dev"},
+	{"d0", "d0/d0", "d0d0"},
+	{"room 1/#", "#", "room 1"},
+}
+
+// vfMqResLastElem: the last '/'-separated element of an id ("" when the id ends in '/').
+func vfMqResLastElem(id string) string {
+	return id[strings.LastIndex(id, "/")+1:]
+}
+
 type vfMqResSess struct {
 	clean   bool
 	deleted bool // its stored record was deleted while a connection of it was still open
@@ -81,6 +102,11 @@ type vfMqResID struct {
 	// a superseded clean-session connection ended while nobody was registered and the id's
 	// persistent session was waiting in the store (see vfMqResKeyLostRecord)
 	recordLost bool
+	// filters the current session unsubscribed (and did not subscribe again): they must stay gone
+	// when the session is resumed by a later connection
+	dropped map[string]bool
+	// the current persistent session saw an UNSUBSCRIBE list mixing held and not-held filters
+	mixedUnsub bool
 }
 
 type vfMqResRun struct {
@@ -236,6 +262,13 @@ func (r *vfMqResRun) connect(d *vfMqResID, clean bool) {
 			d.sess = &vfMqResSess{clean: false, topics: got}
 		}
 	case !clean && d.sess != nil && !d.sess.clean:
+		if len(d.dropped) > 0 {
+			r.vf.Class("session-resumed-after-unsubscribe")
+		}
+		if d.mixedUnsub {
+			r.nt = true
+			r.vf.Class("nontrivial:persistent-session-resumed-after-unsubscribe-list-mixing-held-and-not-held-filters")
+		}
 		if len(d.sess.topics) > 0 {
 			r.vf.Class("reconnect-restores-subscriptions")
 			if d.recordLost {
@@ -252,6 +285,7 @@ func (r *vfMqResRun) connect(d *vfMqResID, clean bool) {
 			r.vf.Class("connect-discards-subscriptions")
 		}
 		d.sess = &vfMqResSess{clean: clean, topics: map[string]byte{}}
+		d.dropped, d.mixedUnsub = nil, false
 	}
 }
 
@@ -324,6 +358,7 @@ func (r *vfMqResRun) subscribe(d *vfMqResID) {
 	}
 	for i, f := range fs {
 		d.sess.topics[f] = qs[i]
+		delete(d.dropped, f)
 	}
 }
 
@@ -339,25 +374,95 @@ func vfC16FmtSubsShared(fs []string, qs []byte) string {
 	return strings.Join(parts, ",")
 }
 
+// unsubscribe sends one UNSUBSCRIBE with a list of 1-3 filters mixing, in drawn order, filters
+// the session holds and filters it never subscribed (MQTT 3.1.1 3.10.4: every listed filter is
+// deleted, filters that match nothing are skipped). After the UNSUBACK none of them is live,
+// now and after any later resumption of the session.
 func (r *vfMqResRun) unsubscribe(d *vfMqResID) {
 	var liveF []string
 	for f := range d.sess.topics {
 		liveF = append(liveF, f)
 	}
 	sort.Strings(liveF)
-	var f string
-	if len(liveF) > 0 && rapid.IntRange(0, 3).Draw(r.rt, "liveFilter?") > 0 {
-		f = rapid.SampledFrom(liveF).Draw(r.rt, "filter")
-	} else {
-		f = rapid.SampledFrom(vfMqResFilters).Draw(r.rt, "filter")
+	var notHeld []string
+	for _, f := range vfMqResFilters {
+		if _, ok := d.sess.topics[f]; !ok {
+			notHeld = append(notHeld, f)
+		}
 	}
-	r.log("%s: unsub(%s)", d.cid, f)
+	// every position is a held or a not-held filter by an (unbiased) coin; a list of two or three
+	// that came out uniform gets one position flipped half of the time, so that lists mixing both
+	// kinds, in every order, are the common case whenever the session holds something
+	wantHeld := rapid.SliceOfN(rapid.Bool(), 1, 3).Draw(r.rt, "unsubHeldPattern")
+	n := len(wantHeld)
+	if n > 1 && len(liveF) > 0 && len(notHeld) > 0 {
+		uniform := true
+		for _, h := range wantHeld {
+			uniform = uniform && h == wantHeld[0]
+		}
+		if uniform && rapid.Bool().Draw(r.rt, "mixUniformList") {
+			i := rapid.IntRange(0, n-1).Draw(r.rt, "flipPos")
+			wantHeld[i] = !wantHeld[i]
+		}
+	}
+	var fs []string
+	for i := 0; i < n; i++ {
+		if len(liveF) > 0 && (wantHeld[i] || len(notHeld) == 0) {
+			fs = append(fs, rapid.SampledFrom(liveF).Draw(r.rt, "filter"))
+		} else if len(notHeld) > 0 {
+			fs = append(fs, rapid.SampledFrom(notHeld).Draw(r.rt, "filter"))
+		} else {
+			fs = append(fs, rapid.SampledFrom(vfMqResFilters).Draw(r.rt, "filter"))
+		}
+	}
+	r.log("%s: unsub(%s)", d.cid, vfC16FmtSubsShared(fs, nil))
 	r.vf.Class("step:unsubscribe")
-	if err := d.live.Unsubscribe([]string{f}); err != nil {
+	// shape of the list: where the not-held filters stand relative to the held ones
+	firstHeld, lastHeld, firstNot, lastNot := -1, -1, -1, -1
+	for i, f := range fs {
+		if _, ok := d.sess.topics[f]; ok {
+			if firstHeld < 0 {
+				firstHeld = i
+			}
+			lastHeld = i
+		} else {
+			if firstNot < 0 {
+				firstNot = i
+			}
+			lastNot = i
+		}
+	}
+	mixed := false
+	switch {
+	case firstHeld < 0:
+		r.vf.Class("unsubscribe-list:only-filters-not-held")
+	case firstNot < 0:
+		r.vf.Class("unsubscribe-list:only-held-filters")
+	default:
+		mixed = true
+		if firstNot < lastHeld {
+			r.vf.Class("unsubscribe-list:not-held-filter-before-a-held-one")
+		}
+		if firstHeld < lastNot {
+			r.vf.Class("unsubscribe-list:held-filter-before-a-not-held-one")
+		}
+	}
+	if err := d.live.Unsubscribe(fs); err != nil {
 		r.liveGone(d, "unsubscribe", err)
 		return
 	}
-	delete(d.sess.topics, f)
+	for _, f := range fs {
+		if _, ok := d.sess.topics[f]; ok {
+			delete(d.sess.topics, f)
+			if d.dropped == nil {
+				d.dropped = map[string]bool{}
+			}
+			d.dropped[f] = true
+		}
+	}
+	if mixed && !d.sess.clean {
+		d.mixedUnsub = true
+	}
 }
 
 // endLive: the client ends its connection (DISCONNECT / half-close), or a backend pipeline asks
@@ -401,6 +506,14 @@ func (r *vfMqResRun) adminDelete(d *vfMqResID) {
 	via := rapid.SampledFrom([]string{"admin", "store-event"}).Draw(r.rt, "deleteVia")
 	r.log("%s: delete-session(%s)", d.cid, via)
 	r.vf.Class("step:delete-session-" + via)
+	if strings.Contains(d.cid, "/") {
+		r.vf.Class("delete-session-of-id-containing-slash:" + map[bool]string{true: "connected", false: "not-connected"}[d.live != nil])
+		for _, o := range r.ids {
+			if o != d && (o.cid == vfMqResLastElem(d.cid) || o.cid == strings.TrimSuffix(d.cid, "/")) {
+				r.vf.Class("delete-session-of-id-whose-last-path-element-is-another-id:other-" + map[bool]string{true: "connected", false: "not-connected"}[o.live != nil])
+			}
+		}
+	}
 	if err := r.rig.Quiesce(); err != nil {
 		r.inconclusive("quiesce", err)
 	}
@@ -515,6 +628,11 @@ func (r *vfMqResRun) check() {
 				if d.live == nil {
 					key = "routed-after-connection-ended:" + strings.SplitN(d.lastEnd, ",", 2)[0]
 				} else {
+					for f := range d.dropped {
+						if vfMqMatch(f, t) {
+							key = "unsubscribed-filter-routed-again"
+						}
+					}
 					for f := range d.orphaned {
 						if vfMqMatch(f, t) {
 							key = vfMqResKeyLostEntry
@@ -622,7 +740,14 @@ func vfMqResKeys(m map[string]bool) []string {
 }
 
 // vfMqResidueCheck is the test body shared by the C14 and C16 wrappers.
-func vfMqResidueCheck(t *testing.T, property string) {
+func vfMqResidueCheck(t *testing.T, property string) { vfMqResidueCheckProfile(t, property, "all") }
+
+// vfMqResidueCheckProfile: profile "all" = every way a connection can end; profile "resume" =
+// only subscribe lists / unsubscribe lists / client-side ends / reconnects, mostly with
+// cleanSession=false, so that nearly every script resumes a kept session after UNSUBSCRIBEs and
+// the routing of the resumed connection (handleConn re-subscribes what the session lists) is
+// compared with what the client still holds.
+func vfMqResidueCheckProfile(t *testing.T, property, profile string) {
 	vf := vfBegin(t, property)
 	defer vf.End()
 	rapid.Check(t, func(rt *rapid.T) {
@@ -633,8 +758,20 @@ func vfMqResidueCheck(t *testing.T, property string) {
 		defer rig.Close()
 		r := &vfMqResRun{rt: rt, vf: vf, rig: rig}
 		nIDs := rapid.IntRange(2, 3).Draw(rt, "nIDs")
+		if profile == "resume" {
+			nIDs = rapid.IntRange(1, 2).Draw(rt, "nIDsResume") // fewer ids: longer per-session histories
+		}
+		fam := 0
+		for _, b := range rapid.SliceOfN(rapid.Bool(), 3, 3).Draw(rt, "idFamilyBits") { // unbiased
+			fam <<= 1
+			if b {
+				fam |= 1
+			}
+		}
+		family := vfMqResIDFamilies[fam%len(vfMqResIDFamilies)]
+		vf.Class(fmt.Sprintf("ids:%s", strings.Join(family[:nIDs], ",")))
 		for i := 0; i < nIDs; i++ {
-			r.ids = append(r.ids, &vfMqResID{cid: fmt.Sprintf("d%d", i), lastEnd: "never connected"})
+			r.ids = append(r.ids, &vfMqResID{cid: family[i], lastEnd: "never connected"})
 		}
 		nSteps := rapid.IntRange(5, 16).Draw(rt, "nSteps")
 		for s := 0; s < nSteps && !r.abandon; s++ {
@@ -652,7 +789,16 @@ func vfMqResidueCheck(t *testing.T, property string) {
 				d = busy[rapid.IntRange(0, len(busy)-1).Draw(rt, "busyID")]
 			}
 			var ops []string
-			if d.live == nil {
+			if profile == "resume" {
+				if d.live == nil {
+					ops = []string{"connect"}
+				} else {
+					ops = []string{"sub", "sub", "unsub", "unsub", "unsub", "end", "end"}
+					if d.sess == nil || len(d.sess.topics) == 0 {
+						ops = []string{"sub", "sub", "sub", "sub", "unsub", "end"} // nothing held yet: mostly subscribe
+					}
+				}
+			} else if d.live == nil {
 				ops = []string{"connect", "connect", "connect"}
 				if d.sess != nil {
 					ops = append(ops, "delete-session")
@@ -671,7 +817,11 @@ func vfMqResidueCheck(t *testing.T, property string) {
 			}
 			switch rapid.SampledFrom(ops).Draw(rt, "op") {
 			case "connect", "takeover":
-				r.connect(d, rapid.Bool().Draw(rt, "clean"))
+				if profile == "resume" {
+					r.connect(d, rapid.SampledFrom([]bool{false, false, false, true}).Draw(rt, "clean"))
+				} else {
+					r.connect(d, rapid.Bool().Draw(rt, "clean"))
+				}
 			case "sub":
 				r.subscribe(d)
 			case "unsub":
@@ -700,7 +850,7 @@ func vfMqResidueCheck(t *testing.T, property string) {
 			vf.Class("case-abandoned-at-known-finding")
 		}
 		vf.Case(r.nt, strings.Join(r.hist, " ; "), func() interface{} {
-			return map[string]interface{}{"test": "broker-residue", "script": strings.Join(r.hist, " ; ")}
+			return map[string]interface{}{"test": "broker-residue/" + profile, "script": strings.Join(r.hist, " ; ")}
 		})
 	})
 }
